@@ -68,12 +68,15 @@ namespace vf
         // region mode: blocks are carved bottom-up from one region and never reused, so the harness controls
         // where the allocator object lies relative to its memory (below / above) and siblings are adjacent
         char *      region = nullptr, *region_cur = nullptr, *region_end = nullptr;
+        std::size_t region_bytes = 0;
         std::size_t region_gap = canary; // distance kept between consecutive blocks (0: back to back)
+        bool        region_down = false; // carve from the top of the region downwards: later blocks have lower addresses
         void        use_region(std::size_t bytes, std::size_t gap = canary)
         {
-            region     = static_cast<char*>(std::malloc(bytes));
-            region_cur = region;
-            region_end = region + bytes;
+            region       = static_cast<char*>(std::malloc(bytes));
+            region_bytes = bytes;
+            region_cur   = region;
+            region_end   = region + bytes;
             region_gap = gap;
             std::memset(region, 0xEE, bytes);
             VF_POISON(region, bytes);
@@ -139,7 +142,13 @@ namespace vf
                     resource_exhausted() = true;
                     throw std::bad_alloc();
                 }
-                raw = region_cur;
+                if (region_down)
+                {
+                    region_end -= total;
+                    raw = region_end;
+                }
+                else
+                    raw = region_cur;
             }
             else
             {
@@ -162,7 +171,8 @@ namespace vf
             auto ptr = reinterpret_cast<char*>(p);
             if (region)
             {
-                region_cur = ptr + n;
+                if (!region_down)
+                    region_cur = ptr + n;
                 VF_UNPOISON(ptr, n);
                 std::memset(ptr, 0xA5, n);
             }
@@ -276,7 +286,7 @@ namespace vf
             drop_all();
             if (region)
             {
-                VF_UNPOISON(region, std::size_t(region_end - region));
+                VF_UNPOISON(region, region_bytes);
                 std::free(region);
             }
         }
